@@ -56,7 +56,7 @@ pub fn glv_backed_mul(cfg: &str) -> bool {
 macro_rules! with_big_curve {
     ($id:expr, $func:ident ( $($arg:expr),* )) => {
         match $id {
-            "bls12_381_g1" => $func::<$crate::curve::SWDrv<ark_test_curves::bls12_381::g1::Config>>($($arg),*),
+            "bls12_381_g1" => $func::<$crate::curve::GlvDrv<ark_test_curves::bls12_381::g1::Config>>($($arg),*),
             "bls12_381_g2" => $func::<$crate::curve::SWDrv<ark_test_curves::bls12_381::g2::Config>>($($arg),*),
             "secp256k1" => $func::<$crate::curve::SWDrv<ark_test_curves::secp256k1::Config>>($($arg),*),
             "mnt4_753_g1" => $func::<$crate::curve::SWDrv<ark_test_curves::mnt4_753::g1::Config>>($($arg),*),
